@@ -112,6 +112,15 @@ def r08_2(ctx):
         ("external parameter, operand with get_op_var", lambda: ([AObj("Register", {}, label="r", opaque=True)], [ext()]), "<r.get_op_var()>"),
         ("external parameter, Parameter passed through", lambda: ([AObj("Parameter", {}, label="bundle", opaque=True)], [ext()]), "<bundle.get_name()>"),
         ("external parameter, enum string", lambda: (["HEX_RF_WIDTH"], [ext()]), "HEX_RF_WIDTH"),
+        # ... however the external type is spelled (pointer or not, qualified or not): an operand is handed over by its operand variable,
+        # rendered the one way every class of register renders it (explicit / alias registers are structs and need their `&`)
+        ("external pointer parameter `HexOp *`", lambda: ([AObj("Register", {}, label="r", opaque=True)], [vt("pe", False, 64, ("EXTERNAL",), "HexOp *")]), "<r.get_op_var()>"),
+        ("external pointer parameter `const HexOp *`", lambda: ([AObj("Register", {}, label="r", opaque=True)], [vt("pe", False, 64, ("EXTERNAL",), "const HexOp *")]), "<r.get_op_var()>"),
+        ("explicit register to `const HexOp *`", lambda: ([AObj("Register", {"name": "R31", "is_explicit": True, "is_reg_alias": False, "is_n_reg": False}, label="R31")], [vt("pe", False, 64, ("EXTERNAL",), "const HexOp *")]), "&R31_op"),
+        ("alias register to `HexOp *`", lambda: ([AObj("Register", {"name": "usr", "is_explicit": False, "is_reg_alias": True, "is_n_reg": False}, label="usr")], [vt("pe", False, 64, ("EXTERNAL",), "HexOp *")]), "&usr_op"),
+        ("ISA register to `const HexOp *`", lambda: ([AObj("Register", {"name": "Rx", "is_explicit": False, "is_reg_alias": False, "is_n_reg": False}, label="Rx")], [vt("pe", False, 64, ("EXTERNAL",), "const HexOp *")]), "Rx_op"),
+        ("explicit register to `HexOp`", lambda: ([AObj("Register", {"name": "R31", "is_explicit": True, "is_reg_alias": False, "is_n_reg": False}, label="R31")], [ext()]), "&R31_op"),
+        ("external parameter `HexInsnPktBundle *`, Parameter", lambda: ([AObj("Parameter", {}, label="bundle", opaque=True)], [vt("pe", False, 64, ("EXTERNAL",), "HexInsnPktBundle *")]), "<bundle.get_name()>"),
         ("two arguments in order", lambda: ([mk_pure("a"), mk_pure("b")], [pure(), pure()]), "<a.il_read()>, <b.il_read()>"),
     ]
     for name, mk, exp in cases:
